@@ -161,8 +161,16 @@ def run_histories(prim, gens, tag):
     results = []
     for i, g in enumerate(gens):
         rc, out, err = sh([HBIN] + g, cwd=VERIF, timeout=3000)
+        crashed = None
         if rc != 0:
-            raise RuntimeError("harness failed: %s\n%s" % (g, err[-2000:]))
+            # the implementation crashed (abort/panic/signal) inside the harness: re-run
+            # line-buffered to keep the history that leads to the crash
+            rc, out, err = sh([HBIN] + g, cwd=VERIF, timeout=3000, env=dict(ENV, HARNESS_FLUSH="1"))
+            lines = out.splitlines()
+            if lines and " || " not in lines[-1] and lines[-1] not in ("(", ")"):
+                lines = lines[:-1]
+            out = "\n".join(lines) + "\n"
+            crashed = {"rc": rc, "stderr": err[-1500:]}
         stats = {}
         try:
             stats = json.loads(err.strip().splitlines()[-1])
@@ -171,6 +179,8 @@ def run_histories(prim, gens, tag):
         rc2, mout, merr = sh([DRIVER], inp=out, timeout=3000)
         if rc2 != 0:
             raise RuntimeError("model driver failed: %s" % merr[-2000:])
+        if crashed:
+            stats = dict(stats, crashed=crashed)
         results.append((g, out.splitlines(), mout.splitlines(), stats))
     return results
 
@@ -183,6 +193,26 @@ def compare(prim, results, fields_by_prop, monitors_wanted):
     for g, impl, model, stats in results:
         counts["histories"] += stats.get("histories", 0)
         counts["states"] += stats.get("distinct_states", 0)
+        if stats.get("crashed"):
+            # reconstruct the history that was running when the implementation died
+            path, stack, new_line = [], [], None
+            for a in impl:
+                if a == "(":
+                    stack.append(len(path)); continue
+                if a == ")":
+                    path = path[:stack.pop()]; continue
+                op = a.partition(" || ")[0]
+                if op.startswith("new "):
+                    new_line, path, stack = op, [], []
+                else:
+                    path.append(op)
+            for p in fields_by_prop:
+                found.setdefault(p + "#monitor", {"kind": "crash", "gen": g,
+                                 "history": [new_line] + path + ["<the next operation crashed the process>"],
+                                 "impl": json.dumps(stats["crashed"]), "model": "",
+                                 "what": "the implementation aborted/panicked inside the harness (rc=%s)" % stats["crashed"]["rc"]})
+            model = model[:len(impl)]
+            impl = impl[:len(model)]
         if len(impl) != len(model):
             for p in fields_by_prop:
                 found.setdefault(p, {"kind": "correspondence", "gen": g, "history": [],
